@@ -244,7 +244,7 @@ def Msk.Inv (msk : Msk) (n : Rng) : Prop := msk.secrets.Inv n
 theorem Msk.Inv.distinct {msk : Msk} {n : Rng} (h : msk.Inv n) : msk.Distinct :=
   ⟨h.keys, h.inj⟩
 
-theorem setup_inv (n : Rng) : (setup n).1.Inv (setup n).2 := by
+theorem setup_inv (n : Rng) (k : Nat) : (setup n k).1.Inv (setup n k).2 := by
   unfold Msk.Inv setup
   exact RevMap.Inv.nil _
 
